@@ -63,9 +63,9 @@ def gen_sizes(rng, n=0):
     return sizes
 
 
-def gen_file(rng, big=70000, marker=True, debug=False):
+def gen_file(rng, big=70000, marker=True, debug=False, defect=False):
     """returns (text, expected) where expected = list of (desc dict, payload) in file order, or None when the
-    import must be rejected"""
+    import must be rejected (defect=True: one blob section does not start at address 0 or has a gap)"""
     w = Writer()
     w.text("# BALTECH firmware file (generated)")
     w.text("##Creator: fwbuilder 2.5")
@@ -80,6 +80,8 @@ def gen_file(rng, big=70000, marker=True, debug=False):
     kinds = [rng.choice(list(SECTIONS) + IGNORED[:1] * (1 if rng.random() < 0.3 else 0)) for _ in range(nsec)]
     if all(k in IGNORED for k in kinds):
         kinds.append(rng.choice(list(SECTIONS)))      # only ignored sections: the marker is never copied (legacy error)
+    bad_section = rng.randrange(len(kinds)) if defect else None
+    rejected = False
     for si, base in enumerate(kinds):
         if base in IGNORED:
             w.text("#>CHECK_FWVER VERSIONDESC=*")
@@ -115,7 +117,16 @@ def gen_file(rng, big=70000, marker=True, debug=False):
             desc[0xC6] = bytes([PROTOCOLS[proto]])
         else:
             w.text("#>SELECT_IF PROTOCOL=*")
-        raws = w.data(base, img, gen_sizes(rng, len(img)))
+        if si == bad_section and fmt == 0 and len(img) > 2:
+            rejected = True                     # a blob must start at 0 and be gap-free
+            if rng.random() < 0.5:
+                raws = w.data(base, img, gen_sizes(rng, len(img)), start=rng.choice([1, 0x10, 0x100, PAGE, PAGE + 7]))
+            else:
+                sz = gen_sizes(rng, len(img))
+                raws = w.data(base, img, [min(x, max(1, len(img) // 3)) for x in sz], gap_at=rng.choice([1, 2]),
+                              gap=rng.choice([1, 0x10, PAGE]))
+        else:
+            raws = w.data(base, img, gen_sizes(rng, len(img)))
         if typ in (0, 2) and fwver is not None:
             desc[0xC8] = fwver
         if rng.random() < 0.5:
@@ -127,7 +138,7 @@ def gen_file(rng, big=70000, marker=True, debug=False):
             desc[0xC5] = b"\x01"
         payload = img if fmt == 0 else b"".join(raws)
         exp.append((desc, payload))
-    return w.value(), exp
+    return w.value(), (None if rejected else exp)
 
 
 def show_lines(lines):
